@@ -272,6 +272,30 @@ func (e *Engine) recordCall(call *ast.CallExpr, ms *modset) {
 			}
 		}
 	case *ast.SelectorExpr:
+		if id, ok := f.X.(*ast.Ident); ok {
+			if pn, ok := e.info.Uses[id].(*types.PkgName); ok {
+				// imported function whose contract updates an argument in place
+				key := pn.Imported().Name() + "." + f.Sel.Name
+				cands := []string{key}
+				if len(call.Args) == 1 {
+					if n, ok := e.info.TypeOf(call.Args[0]).(*types.Named); ok {
+						cands = append(cands, key+"."+n.Obj().Name())
+					}
+				}
+				for _, k := range cands {
+					if con := e.spec.Contracts[k]; con != nil {
+						if len(con.clauses("updates")) > 0 {
+							for _, a := range call.Args {
+								e.recordWrite(a, ms, false)
+							}
+						}
+						if con.Traced {
+							ms.traces[k] = true
+						}
+					}
+				}
+			}
+		}
 		if sel, ok := e.info.Selections[f]; ok {
 			// func-typed field or interface method with a traced contract
 			if key := e.externalKey(sel); key != "" {
